@@ -509,7 +509,11 @@ func main() {
 		sd := (&gen.SchemaGen{R: r, Size: 1 + i%5}).Schema()
 		gen.AddCustomDirectives(r, sd)
 		gen.AddDisjointAbstract(r, sd)
+		gen.AddListShapes(r, sd)
+		gen.AddListShapes(r, sd)
 		gen.AddDisjointAbstract(r, sd)
+		gen.AddListShapes(r, sd)
+		gen.AddListShapes(r, sd)
 		text, meta := gen.ValidDoc(r, sd, 1+(i/5)%6)
 		opName := ""
 		if len(meta.Doc.Ops) > 0 {
@@ -532,6 +536,9 @@ func main() {
 				k := kinds[(i*2+variant+j*7)%len(kinds)]
 				if j > 0 {
 					k = kinds[r2.Intn(len(kinds))]
+				} else if variant == 1 && i%3 == 0 {
+					// every third document: several faults inside ONE literal (sibling positions, random order)
+					k = "multiFaultLiteral"
 				}
 				if gen.Mutate(r2, view, doc2.Doc, k) {
 					applied = append(applied, k)
@@ -558,6 +565,7 @@ func regen(seed uint64, i int) *gen.ValidMeta {
 	sd := (&gen.SchemaGen{R: r, Size: 1 + i%5}).Schema()
 	gen.AddCustomDirectives(r, sd)
 	gen.AddDisjointAbstract(r, sd)
+	gen.AddListShapes(r, sd)
 	_, meta := gen.ValidDoc(r, sd, 1+(i/5)%6)
 	return meta
 }
